@@ -961,6 +961,8 @@ func init() {
 		"(*sync.RWMutex).RUnlock": extNoop,
 		"(*sync.Once).Do":         extOnceDo,
 
+		"log/slog.Default": func(fr *frame, args []value) value { return (*value)(nil) },
+		"(*log/slog.Logger).Enabled": func(fr *frame, args []value) value { return false },
 		"os.Getenv":  func(fr *frame, args []value) value { return "" },
 		"os.Environ": func(fr *frame, args []value) value { return []value(nil) },
 
